@@ -4,6 +4,7 @@ import (
 	"fmt"
 	"go/ast"
 	"go/types"
+	"regexp"
 	"sort"
 	"strings"
 )
@@ -71,8 +72,9 @@ func ruleArmTwins(prog *Program, rep *Report, a, b feSpec, floor int) {
 	sort.Strings(labels)
 	norm := func(lines []string, recv string) []string {
 		var out []string
+		re := regexp.MustCompile(`\b` + regexp.QuoteMeta(recv) + `\.`)
 		for _, l := range lines {
-			out = append(out, strings.ReplaceAll(" "+l, " "+recv+".", " R.")[1:])
+			out = append(out, re.ReplaceAllString(l, "R."))
 		}
 		return out
 	}
@@ -101,10 +103,15 @@ func ruleArmTwins(prog *Program, rep *Report, a, b feSpec, floor int) {
 
 // armTwinAccepted: differences confirmed by reading; key -> {only in a, only in b, reason}.
 var armTwinAccepted = map[string][3]string{
-	"oj.Parser=gen.Parser:numComma":       {"if 0 < len(p.starts)", "if len(p.starts) == 0", "the same test written from the other side: oj adds the number and then rejects a comma outside a container in the else branch, gen rejects it first (the order was changed by the fix for the top-level comma); Engine A follows both"},
+	"sen.Parser=sen.Tokenizer:closeArray": {"LEN := len(R.stack) - start", "", "as for oj: the tokenizer has no build stack"},
+	"sen.Parser=sen.Tokenizer:openArray":  {"push len(R.stack)", "", "as for oj: the tokenizer keeps a byte marker per container"},
+	"oj.Parser=oj.Tokenizer:closeArray":   {"LEN := len(R.stack) - start", "", "the tokenizer builds no values: there is no build stack to cut the array's elements from"},
+	"oj.Parser=oj.Tokenizer:openArray":    {"push len(R.stack)", "", "the parser remembers where the array's elements start on its build stack; the tokenizer keeps a byte marker per container"},
+	"oj.Parser=oj.Tokenizer:numComma":     {"if 0 < len(R.starts)", "if len(R.starts) == 0", "the same test from the other side (see oj.Parser=gen.Parser:numComma)"},
+	"oj.Parser=gen.Parser:numComma":       {"if 0 < len(R.starts)", "if len(R.starts) == 0", "the same test written from the other side: oj adds the number and then rejects a comma outside a container in the else branch, gen rejects it first (the order was changed by the fix for the top-level comma); Engine A follows both"},
 	"oj.Parser=oj.Tokenizer:openObject":   {"R.mi++", "", "the tokenizer builds no maps, so it has no cursor into recycled maps (Reuse option) to advance"},
 	"sen.Parser=sen.Tokenizer:openObject": {"R.mi++", "", "as for oj: the tokenizer builds no maps"},
-	"sen.Parser=sen.Tokenizer:tokenStart": {"if b == '('", "", "sen.Tokenizer has no arms for the parenthesised forms at all (known findings of A-noarm)"},
+	"sen.Parser=sen.Tokenizer:tokenStart": {"if b == '(' | push len(R.stack)", "", "sen.Tokenizer has no arms for the parenthesised forms at all (known findings of A-noarm)"},
 }
 
 // ruleArmTwinsAll: the pairs whose arms read alike on the pinned tree. oj.Validator builds no values and differs in
